@@ -87,7 +87,12 @@ func (v V) Coq() string {
 		return lib.App("VList", v.S, CoqList(v.L)) // S = LIface | LKnown | LOther
 	case "VNamed":
 		return lib.App("VNamed", lib.Str(v.S), v.X.Coq())
-	case "VNameSrc", "VAnd", "VOr", "VNot", "VWhere", "KClauses", "VMapCond", "VStructCond":
+	case "VMapCond":
+		if v.Go == "ifacemap" { // map[interface{}]interface{}: a plain Eq per entry (no IN conversion); one entry here
+			return lib.App("VCmp", "OEq", lib.App("VQStr", lib.Str(v.L[0].S)), v.L[0].X.Coq())
+		}
+		return lib.App(v.T, CoqList(v.L))
+	case "VNameSrc", "VAnd", "VOr", "VNot", "VWhere", "KClauses", "VStructCond":
 		return lib.App(v.T, CoqList(v.L))
 	case "VGormValuer":
 		return lib.App("VGormValuer", lib.Bool(v.B), v.X.Coq())
@@ -234,6 +239,7 @@ func (o OptStr) Value() (driver.Value, error) {
 }
 
 type MyStr string
+type MyBytes []byte // a named byte-slice type: not matched by `case []byte`
 
 // gorm.Valuer
 type Plus struct {
@@ -263,14 +269,14 @@ type Gctx struct{ db *gorm.DB }
 func NewGctx(db *gorm.DB) Gctx { return Gctx{db: db} }
 
 // Prefix applies the handle and the chain of in (no finisher).
-func (g Gctx) Prefix(in Input) *gorm.DB { return g.chain(g.handle(in.TI), in.Chain) }
+func (g Gctx) Prefix(in Input) *gorm.DB { return g.chain(g.handleFor(in), in.Chain) }
 
 // Run applies the chain of in to a fresh handle and calls the finisher.
 func (g Gctx) Run(in Input) *gorm.DB {
 	if in.Fin.K == "raw" || in.Fin.K == "exec" {
 		return g.Finish(g.db, in.Fin)
 	}
-	return g.Finish(g.chain(g.handle(in.TI), in.Chain), in.Fin)
+	return g.Finish(g.chain(g.handleFor(in), in.Chain), in.Fin)
 }
 
 func goScalar(s Sc, variant string) interface{} {
@@ -300,6 +306,9 @@ func goScalar(s Sc, variant string) interface{} {
 		}
 		return s.S
 	case "bytes":
+		if variant == "mybytes" {
+			return MyBytes(s.S)
+		}
 		return []byte(s.S)
 	case "bool":
 		return s.B
@@ -529,8 +538,30 @@ func (g Gctx) val(v V) interface{} {
 	case "VRawSub":
 		return g.db.Raw(v.S, g.list(v.L)...)
 	case "VMapCond":
+		switch v.Go {
+		case "strmap":
+			m := map[string]string{}
+			for _, e := range v.L {
+				m[e.S] = e.X.Sc.S
+			}
+			return m
+		case "ifacemap": // one entry only: iteration order does not matter
+			return map[interface{}]interface{}{v.L[0].S: g.val(*v.L[0].X)}
+		}
 		return namedEntries(v.L, g)
 	case "VStructCond":
+		if v.Go == "slice" { // []Item: the fields of all records, 8 per record
+			n := len(ItemTI.Fields)
+			out := []Item{}
+			for i := 0; i+n <= len(v.L); i += n {
+				out = append(out, g.item(v.L[i:i+n]))
+			}
+			return out
+		}
+		if v.Go == "ptr" {
+			it := g.item(v.L)
+			return &it
+		}
 		return g.item(v.L)
 	case "VOnConflict":
 		oc := clause.OnConflict{DoNothing: v.B}
@@ -538,7 +569,15 @@ func (g Gctx) val(v V) interface{} {
 			oc.Columns = append(oc.Columns, colOf(c))
 		}
 		if len(v.L2) > 0 {
-			oc.DoUpdates = clause.Assignments(namedEntries(v.L2, g))
+			if v.Go == "excluded" {
+				names := []string{}
+				for _, e := range v.L2 {
+					names = append(names, e.S)
+				}
+				oc.DoUpdates = clause.AssignmentColumns(names)
+			} else {
+				oc.DoUpdates = clause.Assignments(namedEntries(v.L2, g))
+			}
 		}
 		if len(v.L3) > 0 {
 			oc.Where = clause.Where{Exprs: g.exprs(v.L3)}
@@ -578,6 +617,16 @@ func (g Gctx) item(fields []V) Item {
 	return it
 }
 
+func (g Gctx) handleFor(in Input) *gorm.DB {
+	if len(in.Chain) > 0 && in.Chain[0].T == "VField" { // Model(&Item{ID: key})
+		return g.db.Model(&Item{ID: uint(in.Chain[0].X.Sc.I)})
+	}
+	if strings.HasPrefix(in.Fin.K, "save_") { // Save sets Dest itself; Model must stay unset (Model == Dest)
+		return g.db.Session(&gorm.Session{})
+	}
+	return g.handle(in.TI)
+}
+
 func (g Gctx) handle(ti TInfo) *gorm.DB {
 	if ti.Model {
 		return g.db.Model(&Item{})
@@ -589,8 +638,22 @@ func (g Gctx) handle(ti TInfo) *gorm.DB {
 func (g Gctx) chain(tx *gorm.DB, calls []V) *gorm.DB {
 	for _, c := range calls {
 		switch c.T {
+		case "VField": // the model key: consumed by handleFor
 		case "KCond":
 			q, args := g.val(*c.X), g.list(c.L)
+			if c.Go == "scope" { // Scopes(func): applied when the finisher executes
+				k := c.S
+				tx = tx.Scopes(func(d *gorm.DB) *gorm.DB {
+					switch k {
+					case "KNot":
+						return d.Not(q, args...)
+					case "KOr":
+						return d.Or(q, args...)
+					}
+					return d.Where(q, args...)
+				})
+				continue
+			}
 			switch c.S {
 			case "KWh":
 				tx = tx.Where(q, args...)
@@ -604,11 +667,34 @@ func (g Gctx) chain(tx *gorm.DB, calls []V) *gorm.DB {
 		case "KSelect":
 			tx = tx.Select(c.S, g.list(c.L)...)
 		case "KSelectCols":
-			tx = tx.Select(c.SL)
+			rest := []interface{}{}
+			for _, x := range c.SL[1:] {
+				rest = append(rest, x)
+			}
+			switch c.Go {
+			case "spread": // Select("a", "b", "c")
+				tx = tx.Select(c.SL[0], rest...)
+			case "slice+more": // Select([]string{"a"}, "b", []string{"c"})
+				more := []interface{}{}
+				for i, x := range c.SL[1:] {
+					if i%2 == 0 {
+						more = append(more, x)
+					} else {
+						more = append(more, []string{x})
+					}
+				}
+				tx = tx.Select(c.SL[:1], more...)
+			default:
+				tx = tx.Select(c.SL)
+			}
 		case "KTable":
 			tx = tx.Table(c.S, g.list(c.L)...)
 		case "KJoins":
-			tx = tx.Joins(c.S, g.list(c.L)...)
+			if c.Go == "inner" {
+				tx = tx.InnerJoins(c.S, g.list(c.L)...)
+			} else {
+				tx = tx.Joins(c.S, g.list(c.L)...)
+			}
 		case "KGroup":
 			tx = tx.Group(c.S)
 		case "KOrder":
